@@ -41,6 +41,7 @@ M = [
     ("C07", "text-not-severed", S + "envelope.py", '            "suit-candidate-verification",\n            "suit-text",\n', '            "suit-candidate-verification",\n'),
     ("C08", "rename-a192kw", S + "suit/types/keys.py", 'name = "cose-alg-a192kw"', 'name = "cose-alg-aes192kw"'),
     ("C08", "cwt-duplicate-code", S + "suit/types/keys.py", '    id = 6\n    name = "Issued At"', '    id = 5\n    name = "Issued At"'),
+    ("C08", "tag-value-not-compared-on-parse", S + "suit/types/common.py", '        if not hasattr(cbor, "tag") or cls._metadata.tag.value != cbor.tag:\n            raise SUITError', '        if not hasattr(cbor, "tag"):\n            raise SUITError'),
     ("C09", "skip-falls-through", "ncs/sign_script.py", "                    self._skip_signing = True\n", "                    self._skip_signing = False\n"),
     ("C09", "key-inherited-from-parent", S + "cmd_sign.py", '        if "key-name" not in envelope_json and not self.omit_signing:\n            raise ValueError(\n                f"key-name not found in {envelope_name}, but signing is required (omit-signing is not set)."\n            )\n        self.key_name = envelope_json.get("key-name")\n', '        self.key_name = envelope_json.get("key-name", getattr(RecursiveSigner, "_inherited_key", None))\n        RecursiveSigner._inherited_key = self.key_name\n'),
     ("C09", "alg-not-inherited", S + "cmd_sign.py", "                        self.kms_script,\n                        self.alg,\n", "                        self.kms_script,\n                        SuitSignAlgorithms.EdDSA,\n"),
@@ -59,6 +60,8 @@ M = [
     ("C14", "iv-from-plaintext", "ncs/basic_kms.py", "        nonce = os.urandom(12)\n", "        import hashlib\n        nonce = hashlib.sha256(plaintext).digest()[:12]\n"),
     ("C14", "iv-from-prng-seeded-with-pid", "ncs/basic_kms.py", "        nonce = os.urandom(12)\n", "        import random\n        nonce = random.Random(os.getpid()).randbytes(12)\n"),
     ("C14", "iv-2-random-bytes", "ncs/basic_kms.py", "        nonce = os.urandom(12)\n", "        nonce = os.urandom(2) * 6\n"),
+    ("C14", "iv-derived-when-some-variable-is-set", "ncs/basic_kms.py", "        nonce = os.urandom(12)\n", "        import hashlib\n        nonce = hashlib.sha256(key_data + plaintext).digest()[:12] if os.getenv(\"NCS_SUIT_BUILD_STAMP\") else os.urandom(12)\n"),
+    ("C14", "iv-3-random-bytes-after-key-prefix", "ncs/basic_kms.py", "        nonce = os.urandom(12)\n", "        import hashlib\n        nonce = hashlib.sha256(key_data).digest()[:9] + os.urandom(3)\n"),
     ("C14", "iv-from-clock", "ncs/basic_kms.py", "        nonce = os.urandom(12)\n", "        import time\n        nonce = time.time_ns().to_bytes(12, \"big\")\n"),
     ("C15", "pkcs8-traditional-mixup", S + "cmd_keys.py", '        "pkcs1": PrivateFormat.TraditionalOpenSSL,\n        "pkcs8": PrivateFormat.PKCS8,', '        "pkcs1": PrivateFormat.PKCS8,\n        "pkcs8": PrivateFormat.TraditionalOpenSSL,'),
     ("C15", "last-byte-dropped", S + "cmd_convert.py", "        text = text[:-2]\n        text += KeyConverter.newline\n", "        text = text[:-8]\n        text += KeyConverter.newline\n"),
